@@ -1,6 +1,7 @@
 import WhVerif.Lemmas.C16
 import WhVerif.Lemmas.C16UF
 import WhVerif.Model.C16Select
+import WhVerif.Model.C16Table
 import WhVerif.Props.C07
 /-!
 # C16 — results depend on the input only (the part that is logic)
@@ -172,5 +173,43 @@ theorem selection_unique_without_decisive_ties (fixed : Bool) (reads : List WhVe
   simpa using this
 
 example : WhVerif.C07.allOutcomes true [selA, ⟨[30, 40], [30, 30], false⟩] 1 true = [.ok [0, 1]] := by decide
+
+/-- **per_sample_writes_order_independent** (round 7): a run that iterates over a set of samples and writes one result per
+sample into a table (`genotype`: the posterior list of each family member; `haplotag`: `read_to_haplotype[(sample, read)]`;
+`polyphase`: one phasing per sample) leaves the same table whatever the enumeration order of the set (`ws₂` any permutation of
+`ws₁`) — PROVIDED no two writes go to the same key, i.e. every sample owns its key.  That proviso is exactly what seed
+C16-f (one list object shared by all samples) and finding F110 (`--ignore-read-groups`: key `(None, read name)` for every
+sample) violate. -/
+theorem per_sample_writes_order_independent {κ ν : Type} [DecidableEq κ] (ws₁ ws₂ : List (κ × ν)) (h : ws₁.Perm ws₂)
+    (hkeys : ws₁.Pairwise (fun a b => a.1 ≠ b.1)) (t : κ → Option ν) :
+    writeAll ws₁ t = writeAll ws₂ t := by
+  induction h generalizing t with
+  | nil => rfl
+  | cons x _ ih =>
+    simp only [writeAll, List.foldl_cons]
+    exact ih (List.pairwise_cons.1 hkeys).2 _
+  | swap x y l =>
+    simp only [writeAll, List.foldl_cons]
+    congr 1
+    funext k
+    have hxy : y.1 ≠ x.1 := (List.pairwise_cons.1 hkeys).1 x (by simp)
+    by_cases h1 : k = x.1 <;> by_cases h2 : k = y.1 <;> simp_all
+  | trans h1 _ ih1 ih2 =>
+    rw [ih1 hkeys t]
+    exact ih2 ((h1.pairwise_iff (fun hab => fun e => hab e.symm)).1 hkeys) t
+
+example : writeAll [(1, "a"), (2, "b")] (fun _ => none) = writeAll [(2, "b"), (1, "a")] (fun _ => none) :=
+  per_sample_writes_order_independent _ _ (List.Perm.swap _ _ _) (by decide) _
+
+/-- … and the proviso is needed (F110): with `--ignore-read-groups` two samples store the assignment of read 7 under the same
+key; the sample enumerated last decides, so the two enumeration orders of {sample 1, sample 2} leave different tables —
+whereas with the sample in the key they agree. -/
+theorem shared_key_last_writer_wins :
+    writeAll [(haplotagKey true 1 7, "H1"), (haplotagKey true 2 7, "H2")] (fun _ => none) (haplotagKey true 1 7)
+      ≠ writeAll [(haplotagKey true 2 7, "H2"), (haplotagKey true 1 7, "H1")] (fun _ => none) (haplotagKey true 1 7) ∧
+    writeAll [(haplotagKey false 1 7, "H1"), (haplotagKey false 2 7, "H2")] (fun _ => none)
+      = writeAll [(haplotagKey false 2 7, "H2"), (haplotagKey false 1 7, "H1")] (fun _ => none) := by
+  refine ⟨by decide, ?_⟩
+  exact per_sample_writes_order_independent _ _ (List.Perm.swap _ _ _) (by decide) _
 
 end WhVerif.Props.C16
